@@ -64,6 +64,7 @@ UNITS.append(Unit('backmp11.on_explicit_entry', ['C09', 'C08', 'C02', 'C04', 'C1
                       dict(name='DECLTYPE-identity', pat='using State = typename decltype ( state_identity ) :: type ;', rep='const type_t State = state_identity ;', min=2, max=2),
                       dict(name='TVAL-zone', pat='static constexpr uint8_t region_id = State :: zone_index ;', rep='const uint8_t region_id = g_zone [ State ] ;', min=1, max=1)],
         rewrites=[dict(name='history-entry', pat='self -> m_history . on_entry ( self , event ) ;', rep='m_history_on_entry_ids ( self , event ) ;', min=0, max=1),
+                  dict(name='TVAL-init-ids', pat='self -> m_active_state_ids = value_array < initial_state_ids > ;', rep='ARRAY_ASSIGN ( self -> m_active_state_ids , g_init_ids16 ) ;', min=0, max=1),
                   dict(name='TVAL-id', pat='get_state_id ( State )', rep='g_tid [ State ]', min=1, max=1),
                   dict(name='visitor-object', pat='state_entry_visitor < Event > visitor { self , event } ;', rep='ALL_IDS_SET ( ) ;', min=1, max=1),
                   dict(name='visitor-call', pat='auto & state = self -> get_state ( State ) ; visitor ( state ) ;', rep='visitor_call_state ( self , State ) ;', min=0, max=1),
